@@ -165,8 +165,10 @@ def resolve_strategy_inline_attachments(base_path, attachments, decisions):
 
     # FIXME: Review this code.
 
-    ldiffs_by_key = {d.key: d for d in local_conflict_diffs}
-    rdiffs_by_key = {d.key: d for d in remote_conflict_diffs}
+    # (several conflicts within one attachment give one patch op each:
+    # combine them, or the mapping below keeps only the last one)
+    ldiffs_by_key = {d.key: d for d in combine_patches(local_conflict_diffs)}
+    rdiffs_by_key = {d.key: d for d in combine_patches(remote_conflict_diffs)}
     conflict_keys = sorted(set(ldiffs_by_key) | set(rdiffs_by_key))
 
     for key in conflict_keys:
